@@ -101,6 +101,10 @@ func c05Progress(p vbase.Params, r *vbase.Result) {
 					lags = append(lags, lagCase{rs, ld, nn, k})
 				}
 			}
+			// the replica that was cut off leads every view after the healing (it is a member of the live quorum)
+			for _, k := range []int{2, 3, 5, 9, 12} {
+				lags = append(lags, lagCase{rs, "lag-leads", nn, k})
+			}
 		}
 	}
 	for i := -len(lags); i < n; i++ {
@@ -119,6 +123,17 @@ func c05Progress(p vbase.Params, r *vbase.Result) {
 			faulty = map[hotstuff.ID]bool{}
 			cfg = Config{N: lc.n, Ruleset: lc.ruleset, Scheme: crypto.NameEDDSA, Cache: uint([]int{0, 100}[lc.k%2]), Leader: lc.leader, BatchSize: 1,
 				Profile: "directed:deep-lag", ByzRules: map[hotstuff.ID]string{}, Label: fmt.Sprintf("deep-lag/%d", lc.k)}
+			if lc.leader == "lag-leads" {
+				cfg.Leader = "script"
+				// views 1..k are led by the others; from view k+1 on - the view in which the cut ends - the lagging replica leads
+				for k := 0; k < lc.k; k++ {
+					cfg.Sched = append(cfg.Sched, hotstuff.ID(1+rng.Intn(lc.n-1)))
+				}
+				for k := 0; k < 80; k++ {
+					cfg.Sched = append(cfg.Sched, hotstuff.ID(lc.n))
+				}
+				cfg.Label = fmt.Sprintf("deep-lag-leads/%d", lc.k)
+			}
 			if lc.leader == "script" {
 				// the lagging replica (the last one) never leads
 				for k := 0; k < 2*lc.n; k++ {
